@@ -44,7 +44,7 @@ var (
 )
 
 type c08Case struct {
-	Scenario string            `json:"scenario"` // S1 | S2 | S3
+	Scenario string            `json:"scenario"` // S1 .. S6
 	Victim   int               `json:"victim"`
 	Crash    []shmx.CrashPoint `json:"crash"`
 }
@@ -65,6 +65,25 @@ func c08Spec(cs c08Case) shmx.Spec {
 		// dealing phase (its commitment and evaluations land one block after the
 		// others', still inside the phase)
 		spec.Schedule = shmx.Schedule{Delay: map[int][3]int{2: {1, 0, 0}}}
+	}
+	if cs.Scenario == "S6" {
+		// the first key generation fails on chain (the two other keypers sleep through
+		// the dealing phase), shuttermint restarts it as a second eon on the same keyper
+		// configuration, which everybody follows in time: the eon's start height differs
+		// from the height at which its configuration was announced
+		spec.MaxEons = 2
+		o1, o2 := (cs.Victim+1)%3, (cs.Victim+2)%3
+		spec.Schedule = shmx.Schedule{Delay: map[int][3]int{o1: {int(c08PhaseLength), 0, 0}, o2: {int(c08PhaseLength), 0, 0}}}
+	}
+	if cs.Scenario == "S4" || cs.Scenario == "S5" {
+		// all honest; the victim itself pauses for one block at the start of the dealing
+		// (S4) / accusing (S5) phase, so that its next sync round handles two shuttermint
+		// blocks: crash points then also lie between the blocks of one round
+		d := [3]int{1, 0, 0}
+		if cs.Scenario == "S5" {
+			d = [3]int{0, 1, 0}
+		}
+		spec.Schedule = shmx.Schedule{Delay: map[int][3]int{cs.Victim: d}}
 	}
 	return spec
 }
@@ -454,8 +473,14 @@ func c08Execute(cs c08Case, logRT bool) *c08Run {
 	run.RT, run.RPC = v.DB().RoundTrips(), v.Client.Calls
 	run.RTLog, run.RPCLog = v.RTLog, v.Client.Log
 	run.Obs = sha256.Sum256([]byte(w.Observation()))
+	lastEon := uint64(1)
+	for e := range w.EonStart {
+		if e > lastEon {
+			lastEon = e
+		}
+	}
 	for _, i := range w.Honest {
-		o := shmx.OutcomeOf(w.Keypers[i], 1)
+		o := shmx.OutcomeOf(w.Keypers[i], lastEon) // the outcome of the newest eon counts
 		switch {
 		case !o.HasRow:
 			run.Success[i] = "no-result"
@@ -515,11 +540,18 @@ func c08Judge(cs c08Case, run, twin *c08Run) {
 	}
 	// agreement with the other keypers (C07's oracle) is judged first: it is the
 	// gravest consequence
-	if ver := w.CheckAgreement(1); ver.Signature != "" {
-		if m.Vulnerable != "" {
-			failf("C08/restart-during-dealing-honest-keypers-disagree-on-eon-key", "%s\n%s", ver.Message, m.Vulnerable)
-		} else {
-			failf(strings.Replace(ver.Signature, "C07/", "C08/agreement/", 1), "%s", ver.Message)
+	var eons []uint64
+	for e := range w.EonStart {
+		eons = append(eons, e)
+	}
+	sort.Slice(eons, func(i, j int) bool { return eons[i] < eons[j] })
+	for _, e := range eons {
+		if ver := w.CheckAgreement(e); ver.Signature != "" {
+			if m.Vulnerable != "" {
+				failf("C08/restart-during-dealing-honest-keypers-disagree-on-eon-key", "%s\n%s", ver.Message, m.Vulnerable)
+			} else {
+				failf(strings.Replace(ver.Signature, "C07/", "C08/agreement/", 1), "eon %d: %s", e, ver.Message)
+			}
 		}
 	}
 	if m.Sig != "" {
@@ -579,12 +611,12 @@ func c08Judge(cs c08Case, run, twin *c08Run) {
 		}
 	}
 	// (3) every evaluation sent verifies against the commitment on chain
-	cm := w.Commitments(1)[cs.Victim]
 	for _, t := range w.Chain.Txs {
 		pe := t.Msg.GetPolyEval()
 		if pe == nil || t.From != v.Address() || t.Check != 0 || t.Deliver != 0 {
 			continue
 		}
+		cm := w.Commitments(pe.Eon)[cs.Victim]
 		for i, rb := range pe.Receivers {
 			ri := idxOf(common.BytesToAddress(rb), w.Spec.Setup.N)
 			val := m.decrypt(ri, pe.EncryptedEvals[i])
@@ -724,7 +756,7 @@ func errorPoints(twin *c08Run) []shmx.CrashPoint {
 func c08() *report.Check {
 	return &report.Check{
 		Level: "fault_enumeration",
-		Rule: "complete key generations (n=3, t=2) through fakeshm with real keypers on minipg; S1 all honest, S2 a scripted third keyper deals a wrong evaluation to the victim and accuses it falsely (the victim accuses and apologises), S3 all honest with the third keyper one block slower in the dealing phase. A crash-free twin numbers the victim's database round trips (N) and shuttermint RPC calls (M). " +
+		Rule: "complete key generations (n=3, t=2) through fakeshm with real keypers on minipg; S1 all honest, S2 a scripted third keyper deals a wrong evaluation to the victim and accuses it falsely (the victim accuses and apologises), S3 all honest with the third keyper one block slower in the dealing phase, S4 / S5 all honest with the victim itself pausing one block at the start of the dealing / accusing phase (its next sync round then handles two blocks), S6 the first key generation fails on chain because the two other keypers sleep through its dealing phase and shuttermint restarts it as a second eon, which succeeds (crash points in both eons). A crash-free twin numbers the victim's database round trips (N) and shuttermint RPC calls (M). " +
 			"quick: victim 0, all scenarios, every single crash point (single transient errors: S2 only): every round trip and every RPC call x {before it is sent, applied but reply lost}; additionally every single transient error (a database round trip refused, an RPC call failing before / after the chain executed it) after which the keyper re-enters its loop with the same in-memory objects. thorough: both victims, all scenarios, all single points, and for S1/S2 every pair (first point: every state-changing autocommit statement and BroadcastTxCommit in both modes, read-only requests before only, per transaction before BEGIN / before COMMIT / after COMMIT; second point: each of the next 60 round trips and 6 RPC calls after the restart, both modes). " +
 			"A crash drops the open transaction and every in-memory object; the keyper is rebuilt like KeyperCore.Start and runs on to a fixed horizon. Oracle at every commit point of the victim's database: current_block advances by one, block-driven tables change only together with current_block, queued/sent commitments and evaluations equal the stored polynomial; at the horizon: every block once, one commitment per eon, sent evaluations verify, outbox empty and delivered in id order, same outcome / accepted message kinds / per-block database structure as the twin, C07's agreement oracle.",
 		Assumptions: []string{
@@ -742,9 +774,10 @@ func c08() *report.Check {
 				errors   bool // also every single transient error
 				pairs    bool // also crash pairs (thorough)
 			}
-			jobs := []job{{"S1", 0, false, true}, {"S2", 0, true, true}, {"S3", 0, false, false}}
+			jobs := []job{{"S1", 0, false, true}, {"S2", 0, true, true}, {"S3", 0, false, false}, {"S4", 0, false, false}, {"S5", 0, false, false}, {"S6", 0, false, false}}
 			if c.Thorough {
-				jobs = []job{{"S1", 0, true, true}, {"S2", 0, true, true}, {"S3", 0, true, false}, {"S1", 1, true, true}, {"S2", 1, true, true}, {"S3", 1, true, false}}
+				jobs = []job{{"S1", 0, true, true}, {"S2", 0, true, true}, {"S3", 0, true, false}, {"S1", 1, true, true}, {"S2", 1, true, true}, {"S3", 1, true, false},
+					{"S4", 0, true, false}, {"S5", 0, true, false}, {"S4", 1, true, false}, {"S5", 1, true, false}, {"S6", 0, true, false}, {"S6", 1, false, false}}
 			}
 			unit := 0
 			runCase := func(cs c08Case, twin *c08Run) {
